@@ -218,6 +218,14 @@ func ZZ_C14_idtoken_strategy() {
 		Headers: &jwt.Headers{Extra: map[string]interface{}{"foo": "bar"}},
 		Subject: subject,
 	}
+	if zz.Choice("stale-extra", 2) == 1 {
+		// custom claims copied from elsewhere that happen to use registered names: the binding claims of THIS
+		// response must not come from them
+		sess.Claims.Extra["nonce"] = "stale-nonce-0123456789"
+		sess.Claims.Extra["c_hash"] = "stale-c-hash"
+		sess.Claims.Extra["at_hash"] = "stale-at-hash"
+		zz.Cover("strategy:session-extra-uses-registered-names", true)
+	}
 	form := url.Values{}
 	if refresh {
 		form.Set("grant_type", "refresh_token")
@@ -380,6 +388,8 @@ func ZZ_C14_idtoken_strategy() {
 	}
 	ath, _ := d.str("at_hash")
 	zz.Assert(ath == "at-hash-of-the-flow", "strategy: at_hash handed over by the flow is kept")
+	_, hasCH := d.str("c_hash")
+	zz.Assert(!hasCH, "strategy: no c_hash when the flow handed none over")
 	ext, _ := d.str("ext1")
 	zz.Assert(ext == "v1", "strategy: custom claims kept")
 	if hint != 0 && !refresh {
